@@ -73,8 +73,8 @@ PROPS = {
         floor=50,
         builds=["harness"],
         legs=lambda tier, seed, scratch: [
-            dict(cmd="c03", name="c03", cases=_q(tier, 3000, 30000)),
-            dict(cmd="c03r", name="c03-concurrent-reopened-readers", cases=_q(tier, 96, 1500), stall_s=60),
+            dict(cmd="c03", name="c03", cases=_q(tier, 3000, 150000)),
+            dict(cmd="c03r", name="c03-concurrent-reopened-readers", cases=_q(tier, 96, 4000), stall_s=60),
         ],
         rule=GEN_NOTE + "items_per_slot in {1,2,3,5}, block_size in {2,3,4} so ranges cross blocks and index nodes. Per case one "
         "file and a history of 120 (quick) / 300 (thorough) queries against one plain reader, one caching reader, one "
@@ -97,7 +97,7 @@ PROPS = {
         level="exploration",
         floor=50,
         builds=["harness"],
-        legs=_legs_simple("c04", 4000, 40000),
+        legs=_legs_simple("c04", 4000, 200000),
         rule=GEN_NOTE + "bigBed layouts incl. 'one very long entry followed by many short ones', items_per_slot in {1,2,3,5}, "
         "block_size in {2,3,4}. Per case a history of 120/300 queries (0 <= s < e, ends from the boundary set incl. "
         "midpoints of entries) on plain, caching and reopened readers, repeats and get_interval_move as in C03. Oracle "
@@ -130,7 +130,7 @@ PROPS = {
         level="exploration",
         floor=50,
         builds=["harness", "cli"],
-        legs=lambda tier, seed, scratch: [dict(cmd="c06", name="c06", cases=_q(tier, 6000, 100000))] + __import__("c06_tool").legs(tier, seed, scratch),
+        legs=lambda tier, seed, scratch: [dict(cmd="c06", name="c06", cases=_q(tier, 6000, 300000))] + __import__("c06_tool").legs(tier, seed, scratch),
         rule=GEN_NOTE + "Even cases are bigWigs, odd cases bigBeds (overlapping / nested / identical / zero-length entries), single "
         "and two pass. Oracle: get_summary() vs per-base statistics of the input (bigBed: of the depth array, covered "
         "bases only): bases_covered exact, min/max exact, sum/sumsq exact for the exact-arithmetic value class and "
@@ -248,8 +248,8 @@ PROPS = {
         floor=50,
         builds=["harness", "relassert"],
         legs=lambda tier, seed, scratch: [
-            dict(cmd="c13", name="c13-release", cases=_q(tier, 6000, 60000), stall_s=20),
-            dict(cmd="c13", name="c13-debug-assertions", cases=_q(tier, 3000, 30000), stall_s=20, profile="relassert"),
+            dict(cmd="c13", name="c13-release", cases=_q(tier, 6000, 150000), stall_s=20),
+            dict(cmd="c13", name="c13-debug-assertions", cases=_q(tier, 3000, 60000), stall_s=20, profile="relassert"),
         ],
         rule="Each case takes a valid 3..6-chromosome input (>= 3 items per chromosome) and injects exactly one violation: "
         "bigWig {out-of-order, overlapping, start > end, end > chromosome length}, bigBed {out-of-order starts, start > "
@@ -272,7 +272,7 @@ PROPS = {
         level="fault_enumeration",
         floor=20,
         builds=["harness"],
-        legs=_legs_simple("c14", 320, 3000, stall_s=300),
+        legs=_legs_simple("c14", 320, 6000, stall_s=300),
         rule="Per case one small input (<= 4 chromosomes, <= 12 items each, bigWig on even and bigBed on odd cases; compression, "
         "items_per_slot, block_size, zooms, inmemory, channel_size, one/two pass random) written into a recording sink "
         "that logs every write/seek/flush reaching it, once on the deterministic current-thread runtime and once on the "
@@ -300,8 +300,8 @@ PROPS = {
         floor=50,
         builds=["harness", "cli"],
         legs=lambda tier, seed, scratch: [
-            dict(cmd="c15m", name="c15-merge-library", cases=_q(tier, 1500, 30000), stall_s=60),
-            dict(cmd="c15f", name="c15-merge_into-and-fill", cases=_q(tier, 2000, 40000)),
+            dict(cmd="c15m", name="c15-merge-library", cases=_q(tier, 1500, 100000), stall_s=60),
+            dict(cmd="c15f", name="c15-merge_into-and-fill", cases=_q(tier, 2000, 100000)),
         ] + __import__("c15_tool").legs(tier, seed, scratch),
         rule="Leg 1: merge_sections_many on 1..6 generated streams over a span of 49999..260000 bases (values starting at "
         "base 0, crossing / ending on / starting on the 50000-base work-window boundaries, a value spanning three "
@@ -342,7 +342,7 @@ PROPS = {
         level="exploration",
         floor=50,
         builds=["harness", "cli"],
-        legs=lambda tier, seed, scratch: [dict(cmd="c17l", name="c17-library", cases=_q(tier, 2000, 40000))] + __import__("c17_tool").legs(tier, seed, scratch),
+        legs=lambda tier, seed, scratch: [dict(cmd="c17l", name="c17-library", cases=_q(tier, 2000, 150000))] + __import__("c17_tool").legs(tier, seed, scratch),
         rule="Leg 1 (library): stats_for_bed_item on C01-style files (small slots) for 1..40 regions per file with ends drawn from "
         "{0, len, value starts/ends +-3, midpoints} (inside / straddling / between / outside data) vs per-base model "
         "(size, bases, sum, mean0, mean, min, max; NaN mean/min/max when nothing is covered; exact for the exact-"
@@ -390,7 +390,7 @@ PROPS = {
         builds=["harness", "cli"],
         legs=lambda tier, seed, scratch: [
             dict(cmd="c19g", name="c19-generated-schema", cases=41),
-            dict(cmd="c19t", name="c19-parser-totality-grammar", cases=_q(tier, 1500, 30000), stall_s=20),
+            dict(cmd="c19t", name="c19-parser-totality-grammar", cases=_q(tier, 1500, 100000), stall_s=20),
             dict(cmd="c19x", name="c19-parser-totality-short-strings", cases=170, stall_s=60),
         ] + __import__("c19_tool").legs(tier, seed, scratch),
         rule="Leg 1: for every extra-column count 0..40: bed_autosql(rest) parses and its last declaration has 3+n fields; "
